@@ -10,21 +10,38 @@
 
 package ice
 
+// TRUSTED (the reflect-based typed-nil test is not modelled): a nil interface or a
+// typed nil pointer is only logged, anything else is closed exactly once.
 //@ func closeConnAndLog
 //@   props C09
 //@   trusted
 //@   modifies c.gClosed
-//@   ensures closes-a-real-connection-once: c != nil ==> c.gClosed == old(c.gClosed) + 1
+//@   ensures closes-a-real-connection-once: c != nil && c.payload != nil ==> c.gClosed == old(c.gClosed) + 1
+//@   ensures nothing-to-close-otherwise: c == nil || c.payload == nil ==> c.gClosed == old(c.gClosed)
 
 // addCandidate consumes the socket only on success: it is then owned by the
 // started candidate, or - for a duplicate candidate - already closed. On error
 // (cancelled context, closed loop) the caller still owns it.
 //@ func (*Agent).addCandidate
 //@   props C09
-//@   trusted
+//@   requires cand != nil && candidateConn != nil && !candidateConn.gHeld
+//@   requires offered-candidate-was-never-started: baseOf(cand).closeCh == nil
 //@   modifies candidateConn.gClosed, candidateConn.gHeld, fam:*
-//@   ensures success-consumes-the-socket: result == nil ==> (candidateConn.gHeld && candidateConn.gClosed == old(candidateConn.gClosed)) || (!candidateConn.gHeld && candidateConn.gClosed == old(candidateConn.gClosed) + 1) || old(candidateConn.gHeld)
+//@   ensures success-consumes-the-socket: result == nil ==> (candidateConn.gHeld && candidateConn.gClosed == old(candidateConn.gClosed)) || (!candidateConn.gHeld && candidateConn.gClosed == old(candidateConn.gClosed) + 1)
 //@   ensures failure-leaves-it-with-the-caller: result != nil ==> candidateConn.gClosed == old(candidateConn.gClosed) && candidateConn.gHeld == old(candidateConn.gHeld) && unchangedExcept()
+
+// The loop task of addCandidate: a duplicate candidate's socket is closed here,
+// otherwise the candidate is started with exactly the offered socket and owns it.
+//@ func (*Agent).addCandidate$1
+//@   props C09
+//@   requires cand != nil && candidateConn != nil && !candidateConn.gHeld
+//@   requires offered-candidate-was-never-started: baseOf(cand).closeCh == nil
+//@   loop 1 invariant socket-still-with-the-task: candidateConn.gClosed == old(candidateConn.gClosed) && !candidateConn.gHeld
+//@   loop 1 invariant candidate-still-not-started: baseOf(cand).closeCh == nil
+//@   site call Close#1 assert a-duplicate-closes-exactly-the-offered-socket: recv.payload == candidateConn.payload
+//@   site call start#1 assert candidate-is-started-with-the-offered-socket: recv == cand && arg0 == a && arg1 == candidateConn && candidateConn.gClosed == old(candidateConn.gClosed)
+//@   site call start#1 ghost after candidateConn.gHeld := true
+//@   ensures the-task-consumes-the-socket: (candidateConn.gHeld && candidateConn.gClosed == old(candidateConn.gClosed)) || (!candidateConn.gHeld && candidateConn.gClosed == old(candidateConn.gClosed) + 1)
 
 // One server-reflexive gathering attempt (per URL and local address).
 //@ func (*Agent).gatherCandidatesSrflx$1
@@ -37,7 +54,7 @@ package ice
 //@   site call closeConnAndLog#0 assert closes-only-its-own-socket: arg0.payload == conn.payload && !released
 //@   site call addCandidate#1 assert hands-over-an-open-socket: arg3.payload == conn.payload && acquired && conn.gClosed == 0
 //@   ghostvar released bool = false
-//@   site call closeConnAndLog#0 ghost released := true
+//@   site call closeConnAndLog#0 ghost released := arg0 != nil && arg0.payload != nil
 //@   site call addCandidate#1 ghost released := result == nil
 //@   ensures every-acquired-socket-is-closed-once-or-owned-by-a-candidate: acquired ==> released
 
